@@ -893,7 +893,9 @@ pub fn op_big(args: &[Sexp]) -> String {
     let n = match args.get(0).and_then(|a| a.int()) { Some(n) if n > 0 && n <= 400_000 => n as usize, _ => return "bad-op".into() };
     let bad = args.get(1).and_then(|a| a.boolean()).unwrap_or(false);
     let shape = args.get(2).and_then(|a| a.int()).unwrap_or(0);
-    let txt = big_text(n, bad, shape);
+    // shapes 5..9: the same statements as 0..4 written on ONE line (line structure matters to the
+    // error-report builder, which slices the current source line)
+    let txt = if shape >= 5 { big_text(n, bad, shape - 5).lines().filter(|l| !l.trim_start().starts_with('#')).collect::<Vec<_>>().join(" ") } else { big_text(n, bad, shape) };
     let t0 = std::time::Instant::now();
     let r = lef21::verif_hooks::parse_str(&txt);
     let ms = t0.elapsed().as_millis();
@@ -1056,7 +1058,9 @@ fn repeated_headers(txt: &str, rng: &mut Rng) -> String {
     o.push_str("END LIBRARY\n");
     o
 }
-const FAULT_WORDS: &[&str] = &["MACRO", "END", "PIN", "LAYER", ";", "1.5", "-", "\"unterminated", "RECT", "LIBRARY", "PROPERTY", "BEGINEXT", "VERSION", "9.9", "UNITS", "é", "VIA", "ITERATE", "DO", "+", ".", "#", "\"", "OBS", "PORT", "DENSITY", "VIARULE", "PROPERTYDEFINITIONS", "RANGE", "MASK"];
+const FAULT_WORDS: &[&str] = &["MACRO", "END", "PIN", "LAYER", ";", "1.5", "-", "\"unterminated", "RECT", "LIBRARY", "PROPERTY", "BEGINEXT", "VERSION", "9.9", "UNITS", "é", "VIA", "ITERATE", "DO", "+", ".", "#", "\"", "OBS", "PORT", "DENSITY", "VIARULE", "PROPERTYDEFINITIONS", "RANGE", "MASK",
+    // numbers at and beyond the limits of the decimal type (96-bit mantissa, 28 fraction digits)
+    "79228162514264337593543950335", "9999999999999999999999999999", "-79228162514264337593543950335", "0.0000000000000000000000000001", "7922816251426433759354395033.5", "99999999999999999999999999999999"];
 pub fn gen_c11(thorough: bool, rng: &mut Rng, out: &mut Vec<String>) {
     let nbase = if thorough { 400 } else { 60 };
     let per = if thorough { 60 } else { 40 };
@@ -1066,7 +1070,10 @@ pub fn gen_c11(thorough: bool, rng: &mut Rng, out: &mut Vec<String>) {
         if lex { out.push(format!("lef.lex {}", text_hex(s))); }
     };
     // degenerate texts first
-    for s in ["", " ", "\n", "#", "# é", "\"", "\"é", ";", "é", "中文", "-", "+", ".", "1", "1e", "VERSION", "VERSION 5.8", "VERSION 5.8 ;", "MACRO", "MACRO é", "END", "END LIBRARY", "BEGINEXT", "BEGINEXT \"x\"", "BEGINEXT \"x\" é", "UNITS", "PROPERTYDEFINITIONS", "VIA v", "SITE s", "\u{a0}", "\u{2028}MACRO", "a\u{3000}b", "𝄞", "\r", "\r\n\r\n", "\t\t", "MACRO a\nFOREIGN é 1 ;", "VERSION é ;", "MACRO m PIN p PORT LAYER l ; RECT 0 0 é 1 ;", "MACRO m SIZE 1 BY", "MACRO m\n  SIZE é BY 2 ;\nEND m", "NAMESCASESENSITIVE ON ;", "VERSION 5.4 ; NAMESCASESENSITIVE ü ;"] {
+    for s in ["", " ", "\n", "#", "# é", "\"", "\"é", ";", "é", "中文", "-", "+", ".", "1", "1e", "VERSION", "VERSION 5.8", "VERSION 5.8 ;", "MACRO", "MACRO é", "END", "END LIBRARY", "BEGINEXT", "BEGINEXT \"x\"", "BEGINEXT \"x\" é", "UNITS", "PROPERTYDEFINITIONS", "VIA v", "SITE s", "\u{a0}", "\u{2028}MACRO", "a\u{3000}b", "𝄞", "\r", "\r\n\r\n", "\t\t", "MACRO a\nFOREIGN é 1 ;", "VERSION é ;", "MACRO m PIN p PORT LAYER l ; RECT 0 0 é 1 ;", "MACRO m SIZE 1 BY", "MACRO m\n  SIZE é BY 2 ;\nEND m", "NAMESCASESENSITIVE ON ;", "VERSION 5.4 ; NAMESCASESENSITIVE ü ;",
+        "VERSION 9999999999999999999999999999 ;", "VERSION 79228162514264337593543950335 ;", "VERSION 7922816251426433759354395034 ;", "VERSION 0.0000000000000000000000000001 ;", "VERSION -5.8 ;",
+        "MANUFACTURINGGRID 79228162514264337593543950335 ;", "UNITS DATABASE MICRONS 79228162514264337593543950335 ; END UNITS", "UNITS DATABASE MICRONS 7922816251426433759354395033.5 ; END UNITS",
+        "MACRO m SIZE 79228162514264337593543950335 BY 9999999999999999999999999999 ; END m", "MACRO m ORIGIN -79228162514264337593543950335 0.0000000000000000000000000001 ; END m"] {
         push(out, s, true);
     }
     // Unicode class sweep: one character of every kind that a classification function might treat
@@ -1136,5 +1143,12 @@ pub fn gen_c11(thorough: bool, rng: &mut Rng, out: &mut Vec<String>) {
         out.push(format!("lef.big 2000 #f {}", shape));
         out.push(format!("lef.big {} #f {}", n, shape));
         out.push(format!("lef.big {} #t {}", n, shape));
+    }
+    // … and the same statements on a single line (no line breaks at all)
+    let n1 = if thorough { 100000 } else { 60000 };
+    for shape in 5..10 {
+        out.push(format!("lef.big 2000 #f {}", shape));
+        out.push(format!("lef.big {} #f {}", n1, shape));
+        out.push(format!("lef.big {} #t {}", n1, shape));
     }
 }
